@@ -73,7 +73,8 @@ func init() {
 
 func runC48(c *Ctx) {
 	c48ClosedRechecked(c)
-	sp := c.Prog.SSAPkgs[modPath+"/private/ringbuf"]
+	c48Ranges(c)
+	sp :=c.Prog.SSAPkgs[modPath+"/private/ringbuf"]
 	if sp == nil {
 		c.Fail("anchor", "private/ringbuf", 0, "package not loaded")
 		return
